@@ -123,9 +123,11 @@ class RenameAppLabel(BaseMutation):
             for cur_model_sig in cur_app_sig.model_sigs:
                 for cur_field_sig in cur_model_sig.field_sigs:
                     if cur_field_sig.related_model:
-                        parts = cur_field_sig.related_model.split('.', 1)[1]
+                        parts = cur_field_sig.related_model.split('.', 1)
 
-                        if parts[0] == old_app_label:
+                        if (parts[0] == old_app_label and
+                            (model_names is None or
+                             parts[1] in model_names)):
                             cur_field_sig.related_model = \
                                 '%s.%s' % (new_app_label, parts[1])
 
